@@ -101,7 +101,7 @@ func init() {
 		Run:      func(sc any, tr *kit.Trace) *kit.Result { return runC09(sc.(*C09Scenario), tr) },
 		Shrink:   shrinkC09,
 		PerChunk: 2,
-		Quick:    28,
+		Quick:    22,
 		Thorough: 4000,
 	})
 }
@@ -180,6 +180,7 @@ func genC09(r *kit.RNG, tier string) *C09Scenario {
 		sc.Pubs = append(sc.Pubs, p)
 	}
 	snapshot(0, "", signers)
+	var revTimes []int
 	gaps := []int{60, 12 * 60, 24 * 60, 29 * 1440, 30*1440 - 720, 30 * 1440, 30*1440 + 720, 31 * 1440, 45 * 1440, 89 * 1440, 90 * 1440, 91 * 1440, 3 * 1440, 10 * 1440}
 	at := 0
 	for at < sc.Days*1440 {
@@ -213,7 +214,11 @@ func genC09(r *kit.RNG, tier string) *C09Scenario {
 			delete(pub, k)
 			snapshot(at, "", signers)
 		case 4, 5, 10, 11: // revoke a key: published with REVOKE, self-signed or not, co-signed or not
+			if r.Chance(0.35) {
+				k = sc.Config[r.Intn(len(sc.Config))] // a key the configuration keeps listing
+			}
 			if pub[k] || r.Chance(0.3) {
+				revTimes = append(revTimes, at)
 				rev[k] = true
 				delete(pub, k)
 				sg := append([]int(nil), signers...)
@@ -286,6 +291,10 @@ func genC09(r *kit.RNG, tier string) *C09Scenario {
 	if r.Chance(0.35) && len(sc.DiskEvents) == 0 {
 		kind := kit.Pick(r, []string{"ro", "tomb-unreadable", "tomb-corrupt"})
 		from := r.Intn(sc.Days * 1440)
+		if len(revTimes) > 0 && r.Chance(0.5) {
+			// the store becomes unusable some time after a revocation was recorded in it
+			from = kit.Pick(r, revTimes) + kit.Pick(r, []int{1440, 3 * 1440, 12 * 1440})
+		}
 		to := from + kit.Pick(r, []int{720, 1440, 5 * 1440, 40 * 1440})
 		sc.DiskEvents = append(sc.DiskEvents, C09DiskEvent{AtMin: from, Kind: kind + "-on"}, C09DiskEvent{AtMin: to, Kind: kind + "-off"})
 	}
@@ -606,6 +615,10 @@ type c09Run struct {
 	stateOps   []int // op-log indexes at which a state-changing refresh started persisting
 	revOps     []int // same, for refreshes that accepted a revocation
 	curCfg     []int
+	// inProc: keys whose revocation this incarnation accepted in a refresh that ran to
+	// completion while it trusted the key. Whatever the disk did, the process itself saw
+	// the revocation: it may not publish the key again before it restarts.
+	inProc map[int]string
 }
 
 func (x *c09Run) cfg(keys, revoked []int) *config.Config {
@@ -648,6 +661,7 @@ func (x *c09Run) live() (ids []int, unknown int) {
 
 func (x *c09Run) start(cfgKeys, cfgRevoked []int, now time.Duration) {
 	x.curCfg = cfgKeys
+	x.inProc = map[int]string{}
 	x.r = resolver.NewResolver(x.cfg(cfgKeys, cfgRevoked))
 	x.model.startIncarnation(cfgKeys, cfgRevoked, now)
 	x.tr.AddAt(now, "incarnation start config=%v revoked-config=%v", cfgKeys, cfgRevoked)
@@ -698,6 +712,12 @@ func (x *c09Run) check(now time.Duration, what string) {
 	for k, why := range x.noMore {
 		if inLive[k] {
 			x.res.Fail("C09/revoked-key-trusted-again", "%v %s: key #%d is in the live trust set although its revocation was recorded (%s)", now, what, k, why)
+			return
+		}
+	}
+	for k, why := range x.inProc {
+		if inLive[k] {
+			x.res.Fail("C09/revoked-key-trusted-again", "%v %s: key #%d is in the live trust set although this process accepted its revocation (%s)", now, what, k, why)
 			return
 		}
 	}
@@ -824,7 +844,51 @@ func (x *c09Run) execute() {
 			x.res.Fault("disk:" + strings.TrimSuffix(strings.TrimSuffix(ev.Kind, "-on"), "-off"))
 			x.tr.AddAt(time.Since(start), "disk event %s", ev.Kind)
 		}
+		// refreshes served so far, fed to the model in order; drained before every
+		// (re)start so that a refresh belongs to the incarnation that made it
+		var last = -1
+		var newlyRevoked []int
+		drain := func() {
+			for ; servedDone < len(x.root.served); servedDone++ {
+				sv := x.root.served[servedDone]
+				if !sv.cd {
+					continue // the validator's own DNSKEY fetch during priming, not AutoTA's
+				}
+				if last >= 0 && sv.at-x.root.served[last].at < time.Minute && sv.pub == x.root.served[last].pub {
+					continue // UDP->TCP retry of the same refresh
+				}
+				last = servedDone
+				before := fmt.Sprint(x.model.keys)
+				wasRevoked := map[int]bool{}
+				for k := range x.model.keys {
+					wasRevoked[k] = x.model.keys[k].st == mRevoked
+				}
+				label := x.model.refresh(sc.Pubs[sv.pub], sv.at, x.curCfg)
+				for k := range x.model.keys {
+					if x.model.keys[k].st == mRevoked && !wasRevoked[k] {
+						newlyRevoked = append(newlyRevoked, k)
+					}
+				}
+				if fmt.Sprint(x.model.keys) != before {
+					x.res.Nontrivial = true
+					x.stateOps = append(x.stateOps, x.disk.Ops())
+					if len(newlyRevoked) > 0 {
+						x.revOps = append(x.revOps, x.disk.Ops())
+					}
+				}
+				x.res.Probes["refresh:"+strings.SplitN(label, ":", 2)[0]]++
+				for _, l := range strings.Split(strings.SplitN(label+":", ":", 3)[1], ",") {
+					if l != "" {
+						x.res.Probes["transition:"+l]++
+					}
+				}
+				x.tr.AddAt(sv.at, "refresh pub#%d -> %s", sv.pub, label)
+				x.tr.Shape(label)
+			}
+		}
 		slept := time.Duration(0)
+		restartedThisStep := false
+		prevLive, _ := x.live()
 		for restartIdx < len(sc.Restarts) && time.Duration(sc.Restarts[restartIdx].AtMin)*time.Minute < step+c09Step {
 			rs := sc.Restarts[restartIdx]
 			restartIdx++
@@ -836,6 +900,8 @@ func (x *c09Run) execute() {
 			if rs.Persist != "keep" {
 				x.faulty = true
 			}
+			restartedThisStep = true
+			drain()
 			x.disk.Restart(rs.Persist)
 			x.res.Fault("restart:" + rs.Persist)
 			x.start(rs.Config, rs.ConfigRevoked, time.Since(start))
@@ -847,6 +913,8 @@ func (x *c09Run) execute() {
 			// the refresh goroutine died at a crash point: power loss, then a new process
 			x.faulty = true
 			how := ""
+			// (no drain here: whether the interrupted refresh reached the disk is unknown, so
+			// it is fed to the model after the restart, where configuration seeding wins)
 			x.disk.Restart(how)
 			x.res.Fault("crash")
 			x.tr.AddAt(now, "crash -> restart")
@@ -857,45 +925,7 @@ func (x *c09Run) execute() {
 		if len(x.disk.Fired) > 0 {
 			x.faulty = true
 		}
-		// refreshes served during this hour
-		var last = -1
-		var newlyRevoked []int
-		for ; servedDone < len(x.root.served); servedDone++ {
-			sv := x.root.served[servedDone]
-			if !sv.cd {
-				continue // the validator's own DNSKEY fetch during priming, not AutoTA's
-			}
-			if last >= 0 && sv.at-x.root.served[last].at < time.Minute && sv.pub == x.root.served[last].pub {
-				continue // UDP->TCP retry of the same refresh
-			}
-			last = servedDone
-			before := fmt.Sprint(x.model.keys)
-			wasRevoked := map[int]bool{}
-			for k := range x.model.keys {
-				wasRevoked[k] = x.model.keys[k].st == mRevoked
-			}
-			label := x.model.refresh(sc.Pubs[sv.pub], sv.at, x.curCfg)
-			for k := range x.model.keys {
-				if x.model.keys[k].st == mRevoked && !wasRevoked[k] {
-					newlyRevoked = append(newlyRevoked, k)
-				}
-			}
-			if fmt.Sprint(x.model.keys) != before {
-				x.res.Nontrivial = true
-				x.stateOps = append(x.stateOps, x.disk.Ops())
-				if len(newlyRevoked) > 0 {
-					x.revOps = append(x.revOps, x.disk.Ops())
-				}
-			}
-			x.res.Probes["refresh:"+strings.SplitN(label, ":", 2)[0]]++
-			for _, l := range strings.Split(strings.SplitN(label+":", ":", 3)[1], ",") {
-				if l != "" {
-					x.res.Probes["transition:"+l]++
-				}
-			}
-			x.tr.AddAt(sv.at, "refresh pub#%d -> %s", sv.pub, label)
-			x.tr.Shape(label)
-		}
+		drain()
 		x.observeDurable(now)
 		// publication reflecting a model-accepted revocation: remember it
 		live, _ := x.live()
@@ -912,6 +942,15 @@ func (x *c09Run) execute() {
 				if x.model.keys[k].st == mRevoked && !inLive[k] {
 					if _, seen := x.noMore[k]; !seen && last >= 0 {
 						x.noMore[k] = fmt.Sprintf("published live set %v without it at %v after its revocation", live, now)
+					}
+				}
+			}
+		}
+		if !restartedThisStep && !crashedThisStep {
+			for _, k := range newlyRevoked {
+				for _, l := range prevLive {
+					if l == k {
+						x.inProc[k] = fmt.Sprintf("refresh before %v, no restart since", now)
 					}
 				}
 			}
